@@ -56,15 +56,17 @@ fn download_body(t: &Transfer) -> Vec<u8> {
 
 /// Fresh token per request, of varying length (0..=8 bytes), so that anything of the cache-populating
 /// request leaking into a later reply - including its token *length* - shows.
-fn token_of(t: &Transfer, mid: u16) -> Vec<u8> {
+fn token_of(t: &Transfer, step: usize, mid: u16) -> Vec<u8> {
+    // the *length* depends on (transfer, step) only - so that a transfer sends byte-for-byte equally long requests
+    // in its solo run and in every merge (the budget arithmetic sees the request length); the content is fresh
     let full = [0x90 | (t.salt & 0x0F), (mid >> 8) as u8, mid as u8, 0x11, 0x22, 0x33, 0x44, 0x55];
-    let len = ((mid as usize) * 3 + t.salt as usize) % 9;
+    let len = (step * 3 + (t.salt as usize >> 4)) % 9;
     full[..len].to_vec()
 }
 
 /// The k-th request of the transfer (fixed scripts: block size 16 throughout).
 fn request_of(t: &Transfer, k: usize, mid: u16) -> Vec<u8> {
-    let token = token_of(t, mid);
+    let token = token_of(t, k, mid);
     let path: Vec<&str> = t.key.path.clone();
     match t.kind {
         Kind::Upload => {
@@ -100,10 +102,12 @@ fn run_order(ts: &[Transfer], order: &[usize], rep: Option<&mut Report>) -> Resu
 
 /// Groups with an early-negotiating download run at a budget where the server alone would pick 32-byte blocks.
 fn budget_for(ts: &[Transfer]) -> usize {
+    // long paths make the upload requests bigger: two bytes per segment beyond the third
+    let extra: usize = ts.iter().map(|t| t.key.path.len().saturating_sub(3) * 2).max().unwrap_or(0);
     if ts.iter().any(|t| t.kind == Kind::DownloadEarly) {
-        BUDGET_EARLY
+        BUDGET_EARLY + extra
     } else {
-        BUDGET
+        BUDGET + extra
     }
 }
 
@@ -186,7 +190,7 @@ fn run_events(ts: &[Transfer], order: &[usize], rep: Option<&mut Report>, overla
             Some(r) => r,
             None => return Err(("C12/no-reply".into(), format!("transfer {} step {} got no reply", ti, step))),
         };
-        let token = token_of(t, this_mid);
+        let token = token_of(t, step, this_mid);
         if reply.mid != this_mid || reply.token != token {
             return Err((
                 "C12/reply-does-not-echo-current-request".into(),
@@ -245,6 +249,11 @@ fn variants() -> Vec<(&'static str, Vec<Key>)> {
         ("path-prefix", vec![k(1, 3, &["a"]), k(1, 3, &["a", "b"]), k(1, 3, &["a", "b", "c"])]),
         ("path-other", vec![k(1, 3, &["a"]), k(1, 3, &["b"]), k(1, 3, &["A"])]),
         ("path-empty", vec![k(1, 3, &[]), k(1, 3, &[""]), k(1, 3, &["", ""])]),
+        ("path-long", vec![
+            k(1, 3, &["p", "q", "r", "s", "t", "u", "v", "w", "x"]),
+            k(1, 3, &["p", "q", "r", "s", "t", "u", "v", "w", "y"]),
+            k(1, 3, &["p", "q", "r", "s", "t", "u", "v", "w"]),
+        ]),
         ("path-same-concatenation", vec![k(1, 3, &["ab", "c"]), k(1, 3, &["a", "bc"]), k(1, 3, &["abc"])]),
         ("method-get-fetch", vec![k(1, 1, &["a", "b"]), k(1, 5, &["a", "b"]), k(1, 4, &["a", "b"])]),
     ]
@@ -312,6 +321,11 @@ pub fn run(ctx: &Ctx, rep: &mut Report) {
                 let vi = use_vars[(i / merges) as usize];
                 let (vname, keys) = &vars[vi];
                 let ts: Vec<Transfer> = kinds.iter().enumerate().map(|(j, k)| Transfer { key: keys[j].clone(), kind: *k, salt: 0x11 * (j as u8 + 1) }).collect();
+                if *vname == "path-long" && kinds.iter().any(|k| matches!(k, Kind::Download | Kind::Mixed)) {
+                    // these scripts rely on the server choosing 16-byte blocks at budget 48
+                    rep.count("skipped-long-paths-only-with-upload-and-early-negotiation-scripts");
+                    return;
+                }
                 let order = unrank(i % merges, &counts);
                 let case = || Json::obj().set("variant", *vname).set("kinds", format!("{:?}", kinds)).set("keys", format!("{:?}", keys[..kinds.len()].to_vec())).set("order", order.iter().map(|x| *x as u64).collect::<Vec<_>>());
                 // solo transcripts
